@@ -65,6 +65,7 @@ MIN_COUNTERS = {
 KEY_ROTATE = "cansee.point-target-rotated-about-origin"
 KEY_DSCALE = "cansee.distance-scaling-vector-target-crash"
 KEY_INSIDE = "cansee.viewer-inside-target-not-visible"
+KEY_PTREGION = "visibleregion.point-sphere-diameter-used-as-radius"
 
 SHAPES = {"box": "BoxShape()", "spheroid": "SpheroidShape()", "cylinder": "CylinderShape()", "cone": "ConeShape()"}
 MAX_RAYS = 30000.0
@@ -540,7 +541,9 @@ def run_case(case, ctx, rng, only=None):
             tobj = pobjs[ti]
             prev = None
             for sub in chain:
-                occs = tuple(wobjs[k] for k in sub)
+                # callers of canSee pass only objects whose `occluding` property is true (veneer.CanSee,
+                # VisibilityRequirement); the non-occluding walls matter for the operator-level query
+                occs = tuple(wobjs[k] for k in sub if v["occ"][k]["occluding"])
                 bsub = [boxes[k] for k in sub]
                 ctx.res["evaluations"] += 1
                 ctx.bump("point_queries")
@@ -594,7 +597,9 @@ def run_case(case, ctx, rng, only=None):
                 ctx.bump("region_checks")
                 ctx.bump("region_" + rc)
                 if inreg != (rc == "in"):
-                    ctx.violation(None, f"region: visibleRegion.containsPoint={inreg} but the point is analytically {rc}side the view volume (viewer {v['kind']}, h={math.degrees(v['h']):.1f} v={math.degrees(v['v']):.1f})", wit("p", ti))
+                    rho = float(np.linalg.norm(q))
+                    rkey = KEY_PTREGION if (v["kind"] == "Point" and rc == "in" and not inreg and rho > 0.5 * ov.d * 0.95) else None
+                    ctx.violation(rkey, f"region: visibleRegion.containsPoint={inreg} but the point is analytically {rc}side the view volume (viewer {v['kind']}, d={v['d']:.2f} h={math.degrees(v['h']):.1f} v={math.degrees(v['v']):.1f}, target local rho={float(np.linalg.norm(q)):.2f})", wit("p", ti))
 
         # ---------------- solid targets
         for ti, o in enumerate(v["objs"]):
@@ -606,7 +611,7 @@ def run_case(case, ctx, rng, only=None):
             sp = spacing_for(v, dist)
             prev = None
             for sub in chain:
-                occs = tuple(wobjs[k] for k in sub)
+                occs = tuple(wobjs[k] for k in sub if v["occ"][k]["occluding"])
                 bsub = [boxes[k] for k in sub]
                 ctx.res["evaluations"] += 1
                 ctx.bump("object_queries")
